@@ -11,7 +11,6 @@ import (
 	"go.opentelemetry.io/collector/component"
 	"go.opentelemetry.io/collector/component/componentstatus"
 	"go.opentelemetry.io/collector/component/componenttest"
-	"go.opentelemetry.io/collector/extension"
 	"go.opentelemetry.io/collector/service/internal/status"
 )
 
@@ -40,6 +39,8 @@ type vC11Run struct {
 	atReturn  []int
 	lenReturn []int
 	rep       status.Reporter
+	idx       map[*componentstatus.InstanceID]int
+	seen      [][][2]int // per watcher extension: every (instance, status) it was notified of, in order
 }
 
 type vC11Ext struct {
@@ -49,6 +50,14 @@ type vC11Ext struct {
 	startRep, stopRep []int
 	startErr, stopErr bool
 	started           bool
+}
+
+// a status-watcher extension: the scripted extension + componentstatus.Watcher.  The documented contract
+// is that ComponentStatusChanged may be called before Start and after Shutdown.
+type vC11Watcher struct{ *vC11Ext }
+
+func (w vC11Watcher) ComponentStatusChanged(source *componentstatus.InstanceID, ev *componentstatus.Event) {
+	w.run.seen[w.i] = append(w.run.seen[w.i], [2]int{w.run.idx[source], int(ev.Status())})
 }
 
 func (n *vC11Ext) report(s int) {
@@ -116,25 +125,37 @@ func TestVerifC11Ext(t *testing.T) {
 			run.atReturn[i] = -1
 		}
 		idx := map[*componentstatus.InstanceID]int{}
+		run.idx = idx
+		run.seen = make([][][2]int, nn)
+		var bes *Extensions
 		run.rep = status.NewReporter(func(id *componentstatus.InstanceID, ev *componentstatus.Event) {
 			i := idx[id]
 			run.got = append(run.got, [2]int{i, int(ev.Status())})
 			run.cur[i] = int(ev.Status())
+			// what service.Host.NotifyComponentStatusChange does with an accepted event
+			bes.NotifyComponentStatusChange(id, ev)
 		}, func(error) {})
-		bes := &Extensions{
-			telemetry:   componenttest.NewNopTelemetrySettings(),
-			extMap:      map[component.ID]extension.Extension{},
-			instanceIDs: map[component.ID]*componentstatus.InstanceID{},
-			reporter:    run.rep,
+		// the real constructor (no configured extensions) so that every field is initialised the way New does it;
+		// the scripted extensions are then registered by hand in start order
+		bes, err := New(context.Background(), Settings{Telemetry: componenttest.NewNopTelemetrySettings()}, Config{}, WithReporter(run.rep))
+		if err != nil {
+			t.Fatal(err)
 		}
 		exts := make([]*vC11Ext, nn)
+		watcher := make([]bool, nn)
 		for i := 0; i < nn; i++ {
 			cid := component.MustNewIDWithName("x", fmt.Sprint(i))
 			id := componentstatus.NewInstanceID(cid, component.KindExtension)
 			exts[i] = &vC11Ext{i: i, run: run, id: id, startRep: vC11Reports(rng, 3), stopRep: vC11Reports(rng, 2),
 				startErr: rng.Intn(100) < 12, stopErr: rng.Intn(100) < 20}
 			idx[id] = i
-			bes.extMap[cid] = exts[i]
+			watcher[i] = rng.Intn(100) < 60
+			if watcher[i] {
+				bes.extMap[cid] = vC11Watcher{exts[i]}
+				out.Stat("watcher_extensions", 1)
+			} else {
+				bes.extMap[cid] = exts[i]
+			}
 			bes.instanceIDs[cid] = id
 			bes.extensionIDs = append(bes.extensionIDs, cid)
 		}
@@ -163,6 +184,15 @@ func TestVerifC11Ext(t *testing.T) {
 				break
 			}
 			st[e[0]] = e[1]
+		}
+		// every status watcher is delivered EVERY accepted event of every instance, in order — whether or not the
+		// watcher itself has been started yet (so that what it sees for an instance begins with Starting)
+		for w := 0; w < nn; w++ {
+			if watcher[w] && fmt.Sprint(run.seen[w]) != fmt.Sprint(run.got) {
+				out.Oracle("watcher-misses-status-event", term,
+					fmt.Sprintf("watcher extension %d was delivered %v, the reporter accepted %v", w, run.seen[w], run.got))
+				break
+			}
 		}
 		autoOK, noAutoOK := 0, 0
 		for i := 0; i < nn; i++ {
